@@ -7,6 +7,7 @@
 package main
 
 import (
+	"strconv"
 	"bufio"
 	"encoding/json"
 	"flag"
@@ -555,6 +556,12 @@ func firstLine(s string) string {
 
 func parallelFor(n int, f func(i int)) {
 	par := runtime.NumCPU()
+	// VERIF_PAR=1: the check re-runs a stream sequentially when the parallel run died with a Go runtime fatal error
+	// (e.g. "concurrent map read and map write": the cases of a stream are independent, so that can only come
+	// from state shared inside the library under test)
+	if v, err := strconv.Atoi(os.Getenv("VERIF_PAR")); err == nil && v > 0 {
+		par = v
+	}
 	var wg sync.WaitGroup
 	ch := make(chan int, 256)
 	for w := 0; w < par; w++ {
